@@ -4,17 +4,32 @@ CH_ARGS = ", ".join("c%d: int" % i for i in range(NCH))
 CH_NAMES = ", ".join("c%d" % i for i in range(NCH))
 
 
+def fix(c0, c1):
+    """Optional partition by the first (and second) scheduling choice: PART c0 / c1 name the
+    alternative taken; every int maps onto some alternative, so pinning the int loses nothing."""
+    from .world import P
+
+    ok = True
+    if P("c0") is not None:
+        ok = ok and c0 == P("c0")
+    if P("c1") is not None:
+        ok = ok and c1 == P("c1")
+    return ok
+
+
 def define(name, extra_sig, extra_names, pre_name, body_name, module_globals):
     """Defines `def name(c0..c27, <extra>)` with the PEP316 contract calling body_name(choices, extra...)."""
     src = (
         "def {name}({ch}, {extra_sig}):\n"
         '    """\n'
         "    pre: {pre}({extra_names})\n"
+        "    pre: _sched_fix(c0, c1)\n"
         "    post: _[0]\n"
         "    post: not _[1]\n"
         '    """\n'
         "    return {body}([{chn}], {extra_names})\n"
     ).format(name=name, ch=CH_ARGS, extra_sig=extra_sig, pre=pre_name, extra_names=extra_names, body=body_name, chn=CH_NAMES)
+    module_globals["_sched_fix"] = fix
     import linecache
 
     fname = "<sched:%s>" % name
